@@ -32,8 +32,12 @@ const hookFile = `//go:build verifsim
 package dns
 
 import (
+	"context"
+	"crypto/tls"
 	"net"
 	"runtime"
+	"sync"
+	"unsafe"
 )
 
 // VerifsimUDPConn stands where the library says *net.UDPConn (which satisfies
@@ -56,6 +60,158 @@ var (
 	VerifsimLockWait func(site string)
 )
 
+// verifsimPool stands where the library says sync.Pool (R6): which buffer a
+// sync.Pool hands out depends on the processor the goroutine runs on and on the
+// garbage collector, neither of which the simulator decides. This one hands
+// out the most recently returned object (the strongest aliasing pressure), is
+// emptied between runs, and tells the race detector what sync.Pool tells it:
+// a Put happens before the Get that returns the same object, nothing more.
+type verifsimPool struct {
+	New   func() any
+	mu    sync.Mutex
+	items [64]any // a fixed array and plain stores: nothing here goes through the runtime's instrumented helpers
+	n     int
+	reg   bool
+}
+
+var (
+	verifsimPoolMu  sync.Mutex
+	verifsimPools   [4096]*verifsimPool
+	verifsimPoolN   int
+	verifsimPoolTag [128]uint64
+)
+
+//go:norace
+func verifsimPoolAddr(x any) unsafe.Pointer {
+	ptr := uintptr((*[2]unsafe.Pointer)(unsafe.Pointer(&x))[1])
+	h := uint32((uint64(uint32(ptr)) * 0x85ebca6b) >> 16)
+	return unsafe.Pointer(&verifsimPoolTag[h%uint32(len(verifsimPoolTag))])
+}
+
+//go:norace
+func (p *verifsimPool) Put(x any) {
+	if x == nil {
+		return
+	}
+	verifsimRaceReleaseMerge(verifsimPoolAddr(x))
+	verifsimRaceDisable()
+	p.mu.Lock()
+	if !p.reg {
+		verifsimPoolMu.Lock()
+		if verifsimPoolN < len(verifsimPools) {
+			verifsimPools[verifsimPoolN] = p
+			verifsimPoolN++
+			p.reg = true
+		}
+		verifsimPoolMu.Unlock()
+	}
+	if p.reg && p.n < len(p.items) { // otherwise the object is dropped, as a pool may
+		p.items[p.n] = x
+		p.n++
+	}
+	p.mu.Unlock()
+	verifsimRaceEnable()
+}
+
+//go:norace
+func (p *verifsimPool) Get() any {
+	verifsimRaceDisable()
+	p.mu.Lock()
+	var x any
+	if p.n > 0 {
+		p.n--
+		x = p.items[p.n]
+		p.items[p.n] = nil
+	}
+	p.mu.Unlock()
+	verifsimRaceEnable()
+	if x != nil {
+		verifsimRaceAcquire(verifsimPoolAddr(x))
+		return x
+	}
+	if p.New != nil {
+		return p.New()
+	}
+	return nil
+}
+
+// VerifsimResetPools empties every pool that holds something: one run must not
+// see what an earlier run of the same process left behind.
+//
+//go:norace
+func VerifsimResetPools() {
+	verifsimRaceDisable()
+	verifsimPoolMu.Lock()
+	for i := 0; i < verifsimPoolN; i++ {
+		p := verifsimPools[i]
+		p.mu.Lock()
+		for j := 0; j < p.n; j++ {
+			p.items[j] = nil
+		}
+		p.n, p.reg = 0, false
+		p.mu.Unlock()
+		verifsimPools[i] = nil
+	}
+	verifsimPoolN = 0
+	verifsimPoolMu.Unlock()
+	verifsimRaceEnable()
+}
+
+// Socket seam (R5): where the library asks the operating system for a
+// listening socket or an outgoing connection, the simulator answers when these
+// are set. VerifsimListenSeam / VerifsimDialSeam say whether the rewriter found
+// every such place in this tree (a harness must not use ListenAndServe or the
+// dialling entry points otherwise: a real socket hangs the bubble).
+var (
+	VerifsimListenTCP func(network, addr string, reuseport, reuseaddr bool) (net.Listener, error)
+	VerifsimListenUDP func(network, addr string, reuseport, reuseaddr bool) (net.PacketConn, error)
+	VerifsimDial      func(d *net.Dialer, ctx context.Context, network, address string) (net.Conn, error)
+)
+
+const (
+	VerifsimListenSeam = @LISTEN@
+	VerifsimDialSeam   = @DIAL@
+)
+
+func verifsimDial(d *net.Dialer, ctx context.Context, network, address string) (net.Conn, error) {
+	if h := VerifsimDial; h != nil {
+		return h(d, ctx, network, address)
+	}
+	return d.DialContext(ctx, network, address)
+}
+
+// verifsimDialTLS does what tls.Dialer.DialContext does (connect, then
+// handshake under the context) over a connection obtained from the seam.
+func verifsimDialTLS(td *tls.Dialer, ctx context.Context, network, address string) (net.Conn, error) {
+	h := VerifsimDial
+	if h == nil {
+		return td.DialContext(ctx, network, address)
+	}
+	nd := td.NetDialer
+	if nd == nil {
+		nd = new(net.Dialer)
+	}
+	raw, err := h(nd, ctx, network, address)
+	if err != nil {
+		return nil, err
+	}
+	cfg := td.Config
+	if cfg == nil {
+		cfg = &tls.Config{}
+	}
+	if cfg.ServerName == "" {
+		host, _, _ := net.SplitHostPort(address)
+		cfg = cfg.Clone()
+		cfg.ServerName = host
+	}
+	conn := tls.Client(raw, cfg)
+	if err := conn.HandshakeContext(ctx); err != nil {
+		raw.Close()
+		return nil, err
+	}
+	return conn, nil
+}
+
 func verifsimYield(site string) {
 	if h := VerifsimYield; h != nil {
 		h(site)
@@ -71,9 +227,38 @@ func verifsimLockWait(site string) {
 }
 `
 
+const raceOnFile = `//go:build verifsim && race
+
+package dns
+
+import (
+	"runtime"
+	"unsafe"
+)
+
+func verifsimRaceDisable()                       { runtime.RaceDisable() }
+func verifsimRaceEnable()                        { runtime.RaceEnable() }
+func verifsimRaceAcquire(p unsafe.Pointer)       { runtime.RaceAcquire(p) }
+func verifsimRaceReleaseMerge(p unsafe.Pointer)  { runtime.RaceReleaseMerge(p) }
+`
+
+const raceOffFile = `//go:build verifsim && !race
+
+package dns
+
+import "unsafe"
+
+func verifsimRaceDisable()                      {}
+func verifsimRaceEnable()                       {}
+func verifsimRaceAcquire(p unsafe.Pointer)      {}
+func verifsimRaceReleaseMerge(p unsafe.Pointer) {}
+`
+
 func main() {
 	dir := flag.String("dir", "", "scratch copy of the repository to rewrite in place")
 	flag.BoolVar(&udpSeam, "udp", true, "substitute the interface VerifsimUDPConn for *net.UDPConn")
+	flag.BoolVar(&poolSeam, "pool", true, "substitute a deterministic free list for sync.Pool")
+	flag.BoolVar(&sockSeam, "sock", true, "route listenTCP / listenUDP and the client's dial calls through the simulator's hooks")
 	flag.Parse()
 	if *dir == "" || strings.HasPrefix(filepath.Clean(*dir), "/repo") {
 		fmt.Fprintln(os.Stderr, "instr: -dir must name a scratch copy outside /repo")
@@ -85,7 +270,67 @@ func main() {
 	}
 }
 
-var udpSeam bool
+var udpSeam, sockSeam, poolSeam bool
+
+// R5 (textual, after printing): listenTCP / listenUDP ask the simulator first,
+// and the three places where client.go dials go through verifsimDial[TLS].
+var sockFound = map[string]int{}
+
+// fixSyncImport: a file whose only use of package sync was sync.Pool would no
+// longer compile ("imported and not used"); a blank use keeps the import.
+func fixSyncImport(src []byte) []byte {
+	rest := bytes.ReplaceAll(src, []byte("\"sync\""), nil)
+	if bytes.Contains(rest, []byte("sync.")) {
+		return src
+	}
+	return append(src, []byte("\nvar _ sync.Mutex\n")...)
+}
+
+func sockRewrite(src []byte) []byte {
+	for _, r := range []struct{ key, old, new string }{
+		{"listenTCP", "func listenTCP(network, addr string, reuseport, reuseaddr bool) (net.Listener, error) {\n",
+			"func listenTCP(network, addr string, reuseport, reuseaddr bool) (net.Listener, error) {\n\tif h := VerifsimListenTCP; h != nil {\n\t\treturn h(network, addr, reuseport, reuseaddr)\n\t}\n"},
+		{"listenUDP", "func listenUDP(network, addr string, reuseport, reuseaddr bool) (net.PacketConn, error) {\n",
+			"func listenUDP(network, addr string, reuseport, reuseaddr bool) (net.PacketConn, error) {\n\tif h := VerifsimListenUDP; h != nil {\n\t\treturn h(network, addr, reuseport, reuseaddr)\n\t}\n"},
+		{"dialTLS", "conn.Conn, err = tlsDialer.DialContext(ctx, network, address)", "conn.Conn, err = verifsimDialTLS(&tlsDialer, ctx, network, address)"},
+		{"dial", "conn.Conn, err = d.DialContext(ctx, network, address)", "conn.Conn, err = verifsimDial(&d, ctx, network, address)"},
+		{"dialPlain", "conn.Conn, err = net.Dial(network, address)", "conn.Conn, err = verifsimDial(new(net.Dialer), context.Background(), network, address)"},
+	} {
+		if n := bytes.Count(src, []byte(r.old)); n > 0 {
+			sockFound[r.key] += n
+			src = bytes.ReplaceAll(src, []byte(r.old), []byte(r.new))
+		}
+	}
+	return src
+}
+
+// sockCalls counts, by "package.Name", the calls into net and crypto/tls
+// whose name starts with Dial or Listen (from type information): the seam is
+// complete only if these are exactly the ones it replaces.
+var sockCalls = map[string]int{}
+
+func (rw *rewriter) countSockCalls(f *ast.File) {
+	ast.Inspect(f, func(n ast.Node) bool {
+		call, ok := n.(*ast.CallExpr)
+		if !ok {
+			return true
+		}
+		sel, ok := call.Fun.(*ast.SelectorExpr)
+		if !ok {
+			return true
+		}
+		obj := rw.info.Uses[sel.Sel]
+		if obj == nil || obj.Pkg() == nil {
+			return true
+		}
+		if p := obj.Pkg().Path(); (p == "net" || p == "crypto/tls") && (strings.HasPrefix(obj.Name(), "Dial") || strings.HasPrefix(obj.Name(), "Listen")) {
+			if _, isFunc := obj.(*types.Func); isFunc {
+				sockCalls[p+"."+obj.Name()]++
+			}
+		}
+		return true
+	})
+}
 
 // R4 (textual, after printing): the type *net.UDPConn becomes the interface
 // VerifsimUDPConn wherever the library names it, and setUDPSocketOptions asks
@@ -151,6 +396,7 @@ func run(dir string) error {
 	total := map[string]int{}
 	for i, f := range files {
 		rw := &rewriter{fset: fset, info: info, file: names[i], stats: map[string]int{}, done: map[ast.Node]bool{}}
+		rw.countSockCalls(f)
 		rw.walkFile(f)
 		var out []byte
 		if rw.sites == 0 {
@@ -171,6 +417,22 @@ func run(dir string) error {
 			out, nudp = udpRewrite(out)
 			rw.stats["udpconn"] += nudp
 		}
+		if poolSeam {
+			if n := bytes.Count(out, []byte("sync.Pool")); n > 0 {
+				out = bytes.ReplaceAll(out, []byte("sync.Pool"), []byte("verifsimPool"))
+				out = fixSyncImport(out)
+				rw.stats["pool"] += n
+				nudp++
+			}
+		}
+		if sockSeam {
+			before := len(out)
+			o2 := sockRewrite(out)
+			if len(o2) != before {
+				nudp++ // the file changed
+			}
+			out = o2
+		}
 		if rw.sites == 0 && nudp == 0 {
 			continue
 		}
@@ -181,14 +443,42 @@ func run(dir string) error {
 			total[k] += v
 		}
 	}
+	// every call the package makes into net / crypto/tls to dial or listen must be one the seam replaced or guards
+	want := map[string]int{"net.Dial": 1, "net.DialContext": 1, "crypto/tls.DialContext": 1, "net.Listen": 1, "net.ListenPacket": 1}
+	strayDials, strayListens := 0, 0
+	for name, n := range sockCalls {
+		d := n - want[name]
+		if d < 0 {
+			d = -d
+		}
+		if strings.Contains(name, ".Listen") || strings.Contains(name, "NewListener") {
+			strayListens += d
+		} else {
+			strayDials += d
+		}
+	}
+	listenOK := sockSeam && sockFound["listenTCP"] == 1 && sockFound["listenUDP"] == 1 && strayListens == 0
+	dialOK := sockSeam && sockFound["dialTLS"] == 1 && sockFound["dial"] == 1 && sockFound["dialPlain"] == 1 && strayDials == 0
+	total["sock.stray"] = strayDials + strayListens
+	hookFile := strings.NewReplacer("@LISTEN@", fmt.Sprint(listenOK), "@DIAL@", fmt.Sprint(dialOK)).Replace(hookFile)
+	total["sock.listen"], total["sock.dial"] = b2i(listenOK), b2i(dialOK)
 	if err := os.WriteFile(filepath.Join(dir, "zz_verifsim.go"), []byte(hookFile), 0o644); err != nil {
 		return err
 	}
+	os.WriteFile(filepath.Join(dir, "zz_verifsim_race.go"), []byte(raceOnFile), 0o644)
+	os.WriteFile(filepath.Join(dir, "zz_verifsim_norace.go"), []byte(raceOffFile), 0o644)
 	fmt.Printf("instr: %v\n", total)
 	if total["spawn"] == 0 || total["lock"] == 0 {
 		return fmt.Errorf("no spawn or lock site found: the tree does not look like package dns")
 	}
 	return nil
+}
+
+func b2i(b bool) int {
+	if b {
+		return 1
+	}
+	return 0
 }
 
 func (rw *rewriter) site(kind string, pos token.Pos) *ast.BasicLit {
